@@ -36,7 +36,7 @@ MODULES = ["windpyutils.parallel.storage"]
 SWEEP_PREFIXES = ["TextFileStorage"]
 WORKER_QUALNAMES = ("TextFileStorage.__setitem__", "TextFileStorage.__getitem__", "TextFileStorage.open",
                     "TextFileStorage._open_file_for_read", "TextFileStorage._is_file_open_for_read")
-WORKER_ROLES = ["workerW0", "workerR0"]
+WORKER_ROLES = ["workerW0", "workerR0", "workerR90"]
 RANDOM_K = {"quick": 8, "thorough": 120}
 
 
@@ -72,7 +72,8 @@ def gen_base(rng, tier, index):
             "presize": presize, "extra_ids": [max(ids) + 1 if ids else 1, max(ids) + 40 if ids else 40],
             "parent_polls": rng.random() < 0.8, "parent_writes_late": index % 3 == 0, "seed": rng.randrange(1 << 20),
             "max_reads": 250, "calls": [], "writer_reopens": index % 4 == 2, "linger": rng.choice([0, 0, 0.05, 0.15]),
-            "parent_reads_before_fork": index % 4 == 3}
+            "parent_reads_before_fork": index % 4 == 3, "raw_fork_readers": (1 + index % 2) if index % 8 == 3 else 0,
+            "late_user": index % 3 == 1}
 
 
 def findings(case, result, res):
